@@ -127,6 +127,21 @@ def toLocalIv (sizes : List Nat) (g : Nat × Nat) : Option Iv :=
   if g.2 - offset sizes c ≤ size sizes c then some { c := c, s := g.1 - offset sizes c, e := g.2 - offset sizes c }
   else none
 
+/-- `start_ends_from_intervals(interval, do_clip)` of one integer entry: a start outside its chromosome and a stop before
+the start raise; with `do_clip` the stop is clipped to the end of the entry's OWN chromosome (before the offset is added),
+without it a stop beyond that end raises -/
+def globaliseZ (sizes : List Nat) (clip : Bool) (iv : IvZ) : Option (Nat × Nat) :=
+  if iv.c < sizes.length ∧ 0 ≤ iv.s ∧ iv.s < (size sizes iv.c : Int) ∧ iv.s ≤ iv.e ∧
+      (clip = true ∨ iv.e ≤ (size sizes iv.c : Int)) then
+    some (offset sizes iv.c + iv.s.toNat, offset sizes iv.c + min iv.e.toNat (size sizes iv.c))
+  else none
+
+/-- a deviating rule (clip against the end of the whole genome, after the offset was added) -/
+def globaliseGenomeEndZ (sizes : List Nat) (iv : IvZ) : Option (Nat × Nat) :=
+  if iv.c < sizes.length ∧ 0 ≤ iv.s ∧ iv.s < (size sizes iv.c : Int) ∧ iv.s ≤ iv.e then
+    some (offset sizes iv.c + iv.s.toNat, min (offset sizes iv.c + iv.e.toNat) (total sizes))
+  else none
+
 /-! ## Pile-up and mask -/
 
 /-- number of intervals covering position `g` (list-level meaning of
